@@ -13,7 +13,8 @@ RULE = ("(a) single step: full product parent scalar K x chain code CC x parent 
         "the sum wraps past n (n+1, n+2^200), or IL = 1, n-1}, parent built directly and parsed from its serialisation; (b) explicit-"
         "state BFS of the derivation tree: transitions = ckd(i) on the real nodes walked from one root object, every state compared "
         "(node fields, xprv and xpub strings) with the reference CKDpriv, and derive_path(list) must land on the same state. "
-        "non-trivial = child returned and compared byte for byte; distinct = distinct (parent, index, PRF mode) / distinct tree nodes")
+        "non-trivial = child returned and compared byte for byte; distinct = distinct (parent, index, PRF mode) / distinct tree nodes"
+        "; (c) intermediate-corner classes (vf/corners.py): for IL, IR, child scalar, parent x, parent fingerprint every byte position 00/ff and every first/last byte value, normal and hardened, each cornered child also used as a parent; (d) every entry point that yields a private child (keyword ckd, derive_path, bulk generation with windows across 2^31, nodes/wallets built from the serialised parent, by_path, repeated and neighbour calls) x index alphabet x three parents")
 
 MODES = [("real", None), ("child", 1), ("child", 2), ("child", 0xff), ("child", 2**128), ("child", 0x42), ("child", N - 1),
          ("sum", N + 1), ("sum", N + 2**200), ("il", 1), ("il", N - 1), ("il", N)]
